@@ -286,6 +286,8 @@ type World struct {
 	streams          map[string]*MemStream // model clients s1, s2: a control connection to the stream listener
 	streamRest       map[string][]byte     // bytes of an incomplete frame read from that connection
 	lisS             *MemListener
+	deniedMu         sync.Mutex
+	denied           map[string]bool // the operator's block list (Veto changes it at run time)
 	lisS2            *MemListener // second stream listener (client sx)
 	streamMu         sync.Mutex
 	// real mode (Meta.Extra["real"] = "yes", real-time drivers only): the IPv4 datagram listener and its clients
@@ -543,9 +545,9 @@ func NewWorld(meta Meta, seed int64) (*World, error) {
 		}
 	}
 
-	denied := map[string]bool{}
+	w.denied = map[string]bool{}
 	for _, d := range meta.Denied {
-		denied[d[0]+"|"+d[1]] = true
+		w.denied[d[0]+"|"+d[1]] = true
 	}
 	permHandler := func(clientAddr net.Addr, peerIP net.IP) bool {
 		if w.gate != nil {
@@ -553,8 +555,10 @@ func NewWorld(meta Meta, seed int64) (*World, error) {
 		}
 		c := w.clientName(clientAddr)
 		i := w.ipName(peerIP)
+		w.deniedMu.Lock()
+		defer w.deniedMu.Unlock()
 
-		return !denied[c+"|"+i]
+		return !w.denied[c+"|"+i]
 	}
 	users := map[string]bool{}
 	for _, u := range meta.Users {
@@ -1208,6 +1212,11 @@ func (w *World) do1(a map[string]any, wait func()) (obs []Obs, retry bool, err e
 	switch name {
 	case "Advance":
 		time.Sleep(time.Duration(toInt(a["d"])) * w.Tick)
+	case "Veto": // the operator changes its verdict about (c, i)
+		on, _ := a["on"].(bool)
+		w.deniedMu.Lock()
+		w.denied[c+"|"+fmt.Sprint(a["i"])] = on
+		w.deniedMu.Unlock()
 	case "Binding":
 		m := stun.MustBuild(txidSetter(w.curTxid), stun.BindingRequest)
 		w.sendFromClient(c, m.Raw)
